@@ -1129,5 +1129,6 @@ package types
 //@ func VerifyAddressFormat(bz []byte) (err error)
 //@   props C20
 //@   may_panic
-//@   modifies everything
+//@   keeps *        // a configured address verifier is a pure check: it touches no modelled state
+//@   modifies elems(bz)   // (a custom verifier is handed the slice itself)
 //@   ensures [length] sdkConfig != nil && sdkConfig.addressVerifier == nil ==> ((err == nil) == (len(bz) == 20))
